@@ -416,11 +416,48 @@ func corpus(e *ev.Env) {
 			}
 		})
 	}
-	// FINDING (header source): the cookie of the same name is consulted first
-	for _, src := range [][2]string{{"header", "X-Session-Id"}} {
+	// an id counts only through the configured source: every ordered pair (configured, other),
+	// other source carrying a live id next to / instead of / a forged id next to the configured one
+	names := map[string]string{"cookie": "session_id", "header": "X-Session-Id", "query": "session_id"}
+	for _, src := range []string{"cookie", "header", "query"} {
+		for _, alt := range []string{"cookie", "header", "query"} {
+			if alt == src {
+				continue
+			}
+			src, alt := src, alt
+			name := alt + "-consulted-" + src // "cookie-consulted-header": the fixed finding of round 0
+			e.Corpus(name, func(c *ev.Case) {
+				for variant := 0; variant < 3; variant++ {
+					runSourceFixed(e, c, cfgT{Source: src, Name: names[src], Idle: 5 * sec, VStore: variant != 1}, variant, alt)
+				}
+			})
+		}
+	}
+	// a Save that fails (value of a type nobody registered) must not leave anything behind that
+	// damages what other sessions save next
+	for _, src := range [][2]string{{"cookie", "sid"}, {"header", "X-Session-Id"}, {"query", "sid"}} {
 		src := src
-		e.Corpus("cookie-consulted-"+src[0], func(c *ev.Case) {
-			runSourceFixed(e, c, cfgT{Source: src[0], Name: src[1], Idle: 5 * sec, VStore: true}, 0)
+		e.Corpus("failed-save-"+src[0], func(c *ev.Case) {
+			for _, vst := range []bool{true, false} {
+				for _, mw := range []bool{false, true} {
+					cfg := cfgT{Source: src[0], Name: src[1], VStore: vst, Idle: 5 * sec, Abs: 9 * sec}
+					fin := func(ops ...op) []op {
+						if !mw {
+							ops = append(ops, k("save"))
+						}
+						return ops
+					}
+					runFixed(e, c, cfg, 2, []cstep{
+						{client: 0, mw: mw, ops: fin(set("k0", "v0.1"))},
+						{client: 1, mw: mw, ops: fin(set("k0", "v1.1"))},
+						{client: 0, mw: mw, present: "@jar", ops: fin(get("k0"), set("k1", badVal))}, // cannot be saved
+						{client: 1, mw: mw, present: "@jar", ops: fin(get("k0"), set("k1", "v1.2"))}, // the next save
+						{client: 1, mw: mw, present: "@jar", ops: fin(get("k0"), get("k1"))},
+						{client: 0, mw: mw, present: "@jar", ops: fin(get("k0"), get("k1"), set("k2", "v0.2"))},
+						{client: 0, mw: !mw, present: "@jar", ops: []op{get("k0"), get("k2"), {K: "byid", Tgt: "@jar"}, k("save")}},
+					})
+				}
+			}
 		})
 	}
 }
